@@ -1,6 +1,6 @@
 """Free-text fields of MANIFEST.json per property (kept next to the registry so they stay in step)."""
 
-HOOK_COMMITS: list[str] = []
+HOOK_COMMITS: list[str] = []   # no hook commits: the harness instruments from outside; /repo carries only `fix:` commits (KNOWN_FINDINGS.txt)
 
 DESIGN_REF = {}
 
@@ -45,3 +45,50 @@ LEVEL_TEXT["C20"] = ("Theorems over a file-system operation model: every operati
 LEVEL_NOTE["C19"] = LEVEL_NOTE["default"] + " JSON float text round trip and numpy list conversion are the codec hypothesis of the theorems (sampled, not proved)."
 LEVEL_NOTE["C20"] = LEVEL_NOTE["default"] + " POSIX rename atomicity and visibility of completed writes after a process crash are assumed; crash granularity is one OS-level operation; the recording layer is cross-checked with strace in the thorough tier."
 TECHNIQUE["C20"] = "Lean 4 theorems over an observed file-system operation list (all crash indices) + crash injection at every operation of the real save_json"
+
+LEVEL_TEXT["C01"] = ("Theorems for every n and every ordered abelian group: on any table holding the values of a superadditive game on a knowledge set containing the minimal information, "
+                     "with ARBITRARY stale content in unknown rows, both computers succeed, leave flags and known rows alone, and return lo ≤ v ≤ hi, lo ≤ hi, known rows exact (C01.sound); "
+                     "the same after every admissible history of set / unset / reveal / un-reveal / bulk set / bulk reset / bound writes / computes (C01.histories*). Proof = refinement of the "
+                     "in-place sweeps of bounds.py to a recursive spec (sa_eq_spec / sac_eq_spec) + soundness of the spec. Tie: all 1024 knowledge sets at n=4, all at n=3, sampled n=5..7, "
+                     "random stale pre-fills and interleaved histories; relation demanded is dominance, so a sound-but-looser rewrite raises no C01 alarm.")
+LEVEL_TEXT["C02"] = ("Theorems for every n: the computed lower vector is ≤ every superadditive completion and is itself a completion whenever one exists (minimum attained simultaneously); for every "
+                     "unknown coalition some completion attains the computed upper bound; lower = best partition into known coalitions; upper = min over known supersets of v(T) − lower(T∖S). "
+                     "Tie: equality of both computers with the model on the bounds stream, plus an independent brute-force partition / superset oracle on the real code.")
+LEVEL_TEXT["C03"] = ("Theorems for every n and any linearly ordered value type with + and −: the reference and the cached computer return the SAME table on every table with minimal information and "
+                     "lower = upper on known rows, are defined on exactly the same tables, the result does not depend on which size-sorted order numpy's argsort yields, and a memo that is only "
+                     "extended with (n, f n) always answers f n. Tie: bounds stream with both computers + interleaved histories over several player counts in one interpreter with a digest of the "
+                     "memoised structure before / after every compute.")
+LEVEL_TEXT["C04"] = ("Theorems for every n, every repetition count r (so also the registered 1, 10, 100, 1000): sound for superadditive monotone games, never looser than the superadditive bounds, "
+                     "monotone in r, lower bounds antitone along inclusion, upper ≤ every known sub-coalition's value and ≤ v(T) − lower(T∖S). Proof = refinement of the r+1 rounds to the spec "
+                     "sequence samB / samUp + spec mathematics. Tie: bounds stream with sam:r, r ∈ 0..10, on coverage / budget / XOS games, all knowledge sets n ≤ 4.")
+LEVEL_TEXT["C07"] = ("Theorems for every n: more knowledge (of the same game of the class) gives row-wise nested intervals for sa, sac and sam r; along every reveal path widths never grow; each of "
+                     "exploitability (via the C05 identity), l1, l∞ and l2² is non-increasing, non-negative and zero at full knowledge. l2 = sqrt(l2²): monotonicity of correctly rounded sqrt is "
+                     "trusted. Tie: every lattice edge between computed knowledge sets at n ≤ 4 on the real code + gap functions compared with the model on nested chains.")
+LEVEL_TEXT["C08"] = ("Theorems for every n and all three computers: the result is a function of (known flags, values of known rows) alone whatever the stale rows hold; recomputing is the identity; "
+                     "two admissible histories ending in the same knowledge give the same table; reveal∘compute∘un-reveal∘compute restores the whole table. Tie: stale-state histories "
+                     "(scalar and bulk garbage writes, resets, un-reveals) on the real objects vs the model, with fresh-object, idempotence and undo oracles on the real code.")
+LEVEL_TEXT["C10"] = ("Theorems for every n and every admissible draw: each registered construction (owner-gated factory with any monotone value function, cheerleader, upper-triangular graph, cycle, "
+                     "additive, negated XOS, XS / unit-demand, OXS via min-convolution, K-budget, coverage) is superadditive, and XOS/XS/OXS/budget/coverage are monotone non-increasing with "
+                     "v(∅)=0. Tie: every key of the LIVE registry (except convex) is run with a recording Generator and compared with the model fed the same draws, plus class predicates, "
+                     "dtype, length and seed-determinism on the real output.")
+LEVEL_TEXT["C11"] = ("Theorems: the enumeration lists every set of ≤ k unknown coalitions exactly once in non-decreasing size; the reported gap equals gap(compute(exactly start ∪ set)) for EVERY state "
+                     "of the scratch table; for EVERY chunking of the task list (hence every worker count) the pool returns the sequential map; the real chunking is such a partition; meta-game = "
+                     "same quantity; best-states = first minimiser of the mean per size, non-increasing for monotone gaps. Bound computer and gap are parameters. Tie: real search functions with "
+                     "1..16 processes and poisoned scratch games.")
+LEVEL_TEXT["C12"] = ("Theorems over the stated pool model: per repetition the matrices are that repetition's own trajectory; if a task's result is a function of the task alone every chunking gives the "
+                     "sequential result; and for the model of the pre-fix code the negation (shared RNG ⇒ schedule dependence) by a decided witness. Tie: real evaluate() with 1..5 (thorough 1..16) "
+                     "processes, hidden games captured per repetition, trajectories replayed on fresh environments. Two genuine defects remain as known findings (random solver RNG, module-global "
+                     "unseeded graph generator).")
+LEVEL_TEXT["C14"] = ("Theorems: the ranking is duplicate-free, sorted by size and exactly the masks with ≤ min(limit, m) bits (every m, limit); construction succeeds iff the rank table covers every id "
+                     "(with decided witnesses of the two pre-fix defects); regret matching at a node yields a distribution supported on unused coalitions; the added regret is orthogonal to the "
+                     "strategy; plus-clipping keeps regret ≥ 0; average strategy is a distribution with the same support rule; load∘save = id. The induction over the two passes of a whole "
+                     "iteration is _partial (node step, base case and frame proved). Tie: real GameRegretMinimizer vs the exact Rat model, structure exact, float32 numbers within 1e-5.")
+LEVEL_TEXT["C15"] = ("Theorems for every n and ordered field: the in-place singleton-by-singleton loop equals the closed form w = v − Σ singletons; w is superadditive, ≥ 0, monotone, so w/w(N) ∈ [0,1] "
+                     "with singletons 0 and grand 1, superadditive again; w(N) = 0 ⇒ w ≡ 0; graph game and its table normalise to the same values; denormalize∘normalize = id. Tie: exact stream "
+                     "(strings) in both representations + float stream over every generator family with the property clauses as oracle.")
+LEVEL_NOTE["C12"] = LEVEL_NOTE["default"] + " multiprocessing.Pool chunking / pickling is modelled from measurements (DESIGN 3.6), not verified; the theorems quantify over all chunkings."
+LEVEL_NOTE["C11"] = LEVEL_NOTE["C12"]
+LEVEL_NOTE["C14"] = LEVEL_NOTE["default"] + " float32 arithmetic is outside the theorems; the whole-iteration induction is partial (see evidence assumptions)."
+LEVEL_NOTE["C10"] = LEVEL_NOTE["default"] + " That numpy distributions stay in their documented ranges, and networkx graph generators, are trusted."
+TECHNIQUE["C12"] = "Lean 4 theorems over a process-pool model (all chunkings) + differential runs of the real evaluate() across worker counts"
+TECHNIQUE["C11"] = "Lean 4 theorems (enumeration, value, all chunkings) + differential runs of the real search across worker counts"
